@@ -411,6 +411,13 @@ class Gen:
         reps_i = 1 + self.t.draw(2, "nest-reps-inner")
         controlled_whole = self.t.chance(1, 2, "nest-controlled-circuitop?")
         ids_i = reps_i >= 2 and self.t.chance(1, 2, "nest-ids-inner?")
+        # the deepest key path the motif has: both levels repeat with repetition ids and the innermost
+        # measurement (with a readout-error matrix) is re-keyed once per level
+        deep = (not self.clifford_only) and self.t.chance(1, 4, "nest-deep-path?")
+        if deep:
+            reps_o = reps_i = 2
+            ids_o = ids_i = True
+            controlled_whole = False
         kmap_o = {lk: self._pick(["m", "n"], "nest-mapped")} if self.t.chance(1, 3, "nest-keymap-outer?") else {}
         mk = cirq.MeasurementKey(lk)
         cond = [cirq.KeyCondition(mk), cirq.KeyCondition(mk, index=0),
@@ -419,10 +426,21 @@ class Gen:
         gate = (self._pick([cirq.X, cirq.Z, cirq.H], "nest-gate") if self.clifford_only
                 else self._pick([cirq.X, cirq.Y ** 0.5, cirq.H], "nest-gate"))
         inner_ops = [gate.on(t0).with_classical_controls(cond)]
-        inner_meas = (not controlled_whole) and self.t.chance(1, 2, "nest-inner-measure?")
+        inner_meas = ((not controlled_whole) and self.t.chance(1, 2, "nest-inner-measure?")) or deep
         kmap_i = {}
+        inner_conf = False
         if inner_meas:
-            inner_ops.append(cirq.measure(t0, key="v"))
+            # a readout-error matrix on the innermost measurement: it has to survive being re-keyed once per
+            # enclosing level (key map, repetition id)
+            cmap_i = None
+            if deep or (not self.clifford_only and self.t.chance(1, 2, "nest-inner-confusion?")):
+                if deep or self.t.chance(1, 2, "nest-inner-confusion-flip?"):
+                    mat_i = np.array([[0.0, 1.0], [1.0, 0.0]])    # every reading reported wrongly: no extra branch
+                else:
+                    mat_i, _ = self._confusion([2])
+                    inner_conf = True
+                cmap_i = {(0,): mat_i}
+            inner_ops.append(cirq.measure(t0, key="v", confusion_map=cmap_i))
             if self.t.chance(1, 2, "nest-keymap-inner?"):
                 kmap_i = {"v": "w"}
         inner = cirq.CircuitOperation(cirq.FrozenCircuit(inner_ops), repetitions=reps_i,
@@ -433,7 +451,7 @@ class Gen:
         body = [pre, cirq.measure(s0, key=lk), inner_op]
         if self.t.chance(1, 2, "nest-tail?"):
             body.append((cirq.H if self.clifford_only else cirq.ry(math.pi / 8 * self._pick(EIGHTHS, "angle"))).on(s1))
-        bits = reps_o * (1 + (reps_i if inner_meas else 0))
+        bits = reps_o * (1 + (reps_i * (2 if inner_conf else 1) if inner_meas else 0))
         if self.leaf_bits + bits > self.cap:
             return None
         # names the records end up under, from the documented meaning of the maps, ids and nesting
@@ -458,6 +476,8 @@ class Gen:
             self.key_dims[name] = (2,)
             self.key_instances[name] = self.key_instances.get(name, 0) + cnt
         self.features.update({"subcircuit", "nested-subcircuit", "classical-control"})
+        if inner_meas and cmap_i is not None:
+            self.features.update({"confusion", "nested-subcircuit-confusion"})
         if controlled_whole:
             self.features.add("controlled-circuit-operation")
         if lk != "u":
